@@ -177,6 +177,19 @@ fn c17_salted_assertions() -> R {
         ensure!(bytes(&again) == bytes(&r), "unsalted add is not deterministic", "");
     }
     if let Err(m) = well_formed(&r) { return rt::viol("envelope with salted assertion not canonical", m); }
+    {
+        // objects that a careless guard could take for "no object" (null, false, 0, empty text), and an object that carries a salt of its own
+        op("add_assertion_salted (null / false / 0 / empty / already salted object)");
+        let objs: Vec<(&str, Envelope)> = vec![("null", Envelope::null()), ("false", Envelope::r#false()), ("0", Envelope::new(0)), ("empty text", Envelope::new("")), ("object with its own salt", Envelope::new(leaf_text(985)).add_salt_instance(Salt::from_data(vec![3u8; 10]))), ("node whose subject is null", Envelope::null().add_assertion(leaf_text(986), leaf_text(987)))];
+        let (on, ob) = &objs[(rt::nonce() as usize + had.len() + big + via) % objs.len()];
+        let q = leaf_text(988);
+        let rn = e.add_assertion_salted(q.clone(), ob.clone(), salted);
+        let fq = rn.assertions_with_predicate(q.clone());
+        ensure!(fq.len() == 1 && rn.assertions().len() == e.assertions().len() + 1, "a salted-family add of an assertion with an unusual object did not add exactly that assertion", "object {} salted={}: {} found, {} -> {} assertions", on, salted, fq.len(), e.assertions().len(), rn.assertions().len());
+        ensure!(dg(&must!(rn.object_for_predicate(q.clone()), "object not retrievable")) == dg(ob), "the added assertion has another object", "object {}", on);
+        if salted { ensure!(salt_assertions(&fq[0]).len() == 1, "a salted assertion must carry exactly one salt assertion of its own", "object {}: {}", on, salt_assertions(&fq[0]).len()); }
+        else { ensure!(bytes(&rn) == bytes(&e.add_assertion(q.clone(), ob.clone())), "unsalted add differs from a plain add", "object {}", on); }
+    }
     if !salted {
         // equal input values give equal envelopes, also when the object is an unordered collection built twice in different orders
         op("add_assertion_salted (unsalted, set / map object)");
@@ -516,11 +529,11 @@ fn c18_event() -> R {
 fn c19_attachments() -> R {
     let vendors = ["com.example", "org.other"];
     let confs: [Option<&str>; 3] = [None, Some("https://example.com/v1"), Some("https://example.com/v2")];
-    let payloads = |i: usize| -> Envelope { match i { 0 => Envelope::new(leaf_text(88)), 1 => build(&n(l(1), vec![a(l(2), l(3)), a(l(4), l(5))])), 2 => build(&w(l(6))), _ => Envelope::new(KnownValue::new(33)) } };
+    let payloads = |i: usize| -> Envelope { match i { 0 => Envelope::new(leaf_text(88)), 1 => build(&n(l(1), vec![a(l(2), l(3)), a(l(4), l(5))])), 2 => build(&w(l(6))), 3 => Envelope::new(KnownValue::new(33)), 4 => Envelope::new(leaf_text(89)).elide(), _ => build(&co(n(l(7), vec![a(l(8), l(9))]))) } };
     let natt = 1 + choice(3);
     let mut atts: Vec<(usize, usize, usize)> = vec![];
     // (bounded: the payload varies for a single attachment; with several, the later ones vary in vendor / conformsTo only)
-    for i in 0..natt { atts.push((if natt == 1 { choice(4) } else { [0, 2, 3][i] }, if i < 2 { choice(2) } else { 0 }, if i < 2 { choice(3) } else { choice(2) })); }
+    for i in 0..natt { atts.push((if natt == 1 { choice(6) } else { [0, 2, 3][i] }, if i < 2 { choice(2) } else { 0 }, if i < 2 { choice(3) } else { choice(2) })); }
     let base = match choice(2) { 0 => build(&l(10)), _ => build(&n(l(10), vec![a(l(11), l(12))])) };
     let mut e = base.clone();
     op("add_attachment");
@@ -562,6 +575,12 @@ fn c19_attachments() -> R {
         ensure!(dg(&red) == dg(&e), "digest changed by obscuring", "");
         let got = must!(red.attachments(), "attachments() failed after the 'attachment' predicate was obscured");
         ensure!(got.len() == distinct.len(), "attachments() no longer returns the added attachments after the 'attachment' predicate was obscured", "{} vs {}", got.len(), distinct.len());
+        // a payload obscured in place after it was added: the attachment is still returned, with the same (now obscured) payload
+        let (p0, _, _) = distinct[0];
+        let red3 = e.elide_removing_target(&payloads(p0));
+        let got3 = must!(red3.attachments(), "attachments() failed after a payload was elided in place");
+        ensure!(got3.len() == distinct.len(), "attachments() no longer returns the added attachments after a payload was elided in place", "{} vs {}", got3.len(), distinct.len());
+        for g in &got3 { ensure!(g.attachment_payload().is_ok(), "attachment_payload fails on an attachment whose payload is obscured", ""); }
         let red2 = e.elide_removing_target(&Envelope::new(known_values::VENDOR));
         if let Ok(got2) = red2.attachments_with_vendor_and_conforms_to(Some(vendors[distinct[0].1]), None) { ensure!(got2.len() == distinct.iter().filter(|(_, v, _)| *v == distinct[0].1).count(), "vendor filter returns another set after the 'vendor' predicate was obscured", "{}", got2.len()); }
     }
@@ -602,6 +621,13 @@ pub fn c19_container() -> R {
     for (p, v, c) in &atts { direct = direct.add_attachment(payloads(*p), vendors[*v], confs[*c]); }
     let mut distinct = atts.clone(); distinct.sort(); distinct.dedup();
     rt::note(format!("container {:?}", atts));
+    // the same attachments added as plain assertions (the generic API): add_attachment must agree with it. (This also
+    // relates all attachment assertions to each other in a fixed order before the container - a HashMap, iterated in
+    // random order - adds them.)
+    op("add_assertion_envelope(new_attachment)");
+    let mut generic = base.clone();
+    for (p, v, c) in &atts { generic = must!(generic.add_assertion_envelope(Envelope::new_attachment(payloads(*p), vendors[*v], confs[*c])), "add refused"); }
+    ensure!(bytes(&generic) == bytes(&direct), "add_attachment differs from adding the attachment assertion itself", "{:?}", atts);
     op("Attachments::add / add_to_envelope");
     let mut cont = Attachments::new();
     let order = rt::perm(atts.len());
@@ -718,7 +744,7 @@ pub fn prop_c17() -> Prop {
                 bounds: "every shape of <=5 (quick) / <=7 (thorough) elements + 30 hand-written shapes + 5 envelopes of 100..5000 bytes whose size sits in the assertions x {add_salt_using, add_salt_with_len_using(0,1,7,8,9,64), add_salt_in_range_using(9 ranges, 3 of them empty (start > end)), add_salt_instance, add_salt, add_salt_with_len} x RNG whose range draws are pinned to 0 / u64::MAX / seeded x every digest order; length checked against the documented range computed from the real serialized size",
                 api: &["add_salt", "add_salt_using", "add_salt_with_len", "add_salt_with_len_using", "add_salt_in_range_using", "add_salt_instance"] },
             Scenario { name: "salted_assertions", f: c17_salted_assertions, thorough_only: false,
-                bounds: "7 starting envelopes (bare, with other assertions, already holding the same fact plainly or decorated) x salted / unsalted x {add_assertion_salted, add_assertion_envelope_salted, add_assertions_salted} x every digest order",
+                bounds: "(each path also adds an assertion whose object is one of 6 unusual values - null, false, 0, empty text, an object carrying its own salt, a node whose subject is null - rotating with the path and the seed) 7 starting envelopes (bare, with other assertions, already holding the same fact plainly or decorated) x salted / unsalted x {add_assertion_salted, add_assertion_envelope_salted, add_assertions_salted} x every digest order",
                 api: &["add_assertion_salted", "add_assertion_envelope_salted", "add_assertions_salted", "assertions_with_predicate"] },
         ],
         assumptions: { let mut v = COMMON_ASSUMPTIONS.to_vec(); v.push("quality of the system RNG is outside; the Kani harness decides the length arithmetic of the dependency for all sizes and RNG outputs within its stated windows"); v },
@@ -751,7 +777,7 @@ pub fn prop_c19() -> Prop {
         id: "C19",
         scenarios: vec![
             Scenario { name: "attachments", f: c19_attachments, thorough_only: false,
-                bounds: "2 host envelopes x every list of 1..3 attachments (a single one over 4 payloads, several over 3 fixed payloads (text, node, wrapped, known value) x 2 vendors x conformsTo {none, 2 values} x every filter (vendor none / 2 values) x (conformsTo none / 2 values / unknown) x every digest order",
+                bounds: "2 host envelopes x every list of 1..3 attachments (a single one over 6 payloads (text, node, wrapped, known value, elided, compressed node), several over 3 fixed payloads x 2 vendors x conformsTo {none, 2 values} x every filter (vendor none / 2 values) x (conformsTo none / 2 values / unknown) x every digest order",
                 api: &["add_attachment", "new_attachment", "attachments", "attachments_with_vendor_and_conforms_to", "attachment_with_vendor_and_conforms_to", "attachment_payload", "attachment_vendor", "attachment_conforms_to", "validate_attachment", "Attachments::try_from_envelope"] },
             Scenario { name: "container", f: c19_container, thorough_only: false,
                 bounds: "2 host envelopes x every list of 1..3 attachments over 2 payloads x 2 vendors x conformsTo {none, 1 value, the empty string} (in lists of three the second and third over 1 vendor and {none, empty}, the third over 1 payload; shared payloads and exact repeats included) x every collection order into the Attachments container x every digest order",
